@@ -49,7 +49,7 @@ def gen_fault(rng, sc, K, kv_ops):
     n = len(sc['steps'])
     nres = len(sc['tables'])
     exc = rng.choice(F.EXC_CLASSES)
-    kinds = ['step', 'step', 'step', 'source']
+    kinds = ['step', 'step', 'step', 'source', 'poison']
     if K > 0:
         kinds += ['io', 'io']
     if kv_ops > 0:
@@ -65,6 +65,8 @@ def gen_fault(rng, sc, K, kv_ops):
         if ph == 'rowfunc':
             f['call'] = rng.choice([0, 1, 3])
         return f
+    if kind == 'poison':
+        return {'kind': 'poison', 'pos': rng.randrange(n + 1), 'res': rng.randrange(nres), 'row': rng.choice([0, 0, 1, 2]), 'field': rng.randrange(4), 'exc': exc}
     if kind == 'source':
         ti = rng.randrange(nres)
         nrows = len(sc['tables'][ti]['rows'])
@@ -104,9 +106,13 @@ def _build_links(sc, fault, sub, env, links):
     for i, sp in enumerate(sc['steps']):
         if fault and fault['kind'] == 'step' and fault['pos'] == i:
             links.append(F.tripwire(fault, sub))
+        if fault and fault['kind'] == 'poison' and fault['pos'] == i:
+            links.append(F.poisoner(fault, sub))
         links.extend(ST.build(sp, env))
     if fault and fault['kind'] == 'step' and fault['pos'] >= len(sc['steps']):
         links.append(F.tripwire(fault, sub))
+    if fault and fault['kind'] == 'poison' and fault['pos'] >= len(sc['steps']):
+        links.append(F.poisoner(fault, sub))
 
 
 def _go(payload, sub, links, seam, kv):
@@ -211,7 +217,7 @@ class C04(Prop):
     REAL_VS_STUB = {'real': ['all dataflows code of the generated pipeline', 'parallelize.py under seam B'],
                     'stub': ['file-system seam (io.FileIO subclass, os wrappers)', 'KVFile twin (counts ops, raises sqlite3.OperationalError)', 'seam B twins for the parallelize pipelines']}
     PROBES = ['fault-not-reached', 'observer-after-failure', 'fault-in-package-phase', 'fault-at-exhaustion', 'fault-after-all', 'io-error-fired', 'kv-error-fired',
-              'source-raise-in-sample', 'source-raise-after-sample', 'parallelize-upstream-raise', 'parallelize-downstream-raise', 'prebuilt-processor-error']
+              'source-raise-in-sample', 'source-raise-after-sample', 'parallelize-upstream-raise', 'parallelize-downstream-raise', 'prebuilt-processor-error', 'poison-fired']
     TIERS = {'quick': dict(runs=900, wall=100, run_wall=120),
              'thorough': dict(runs=25000, wall=1700, run_wall=300)}
     SHRINK_FROZEN = ('fields', 'gen_stats')
@@ -255,14 +261,14 @@ class C04(Prop):
         os.makedirs(d1)
         os.chdir(d1)
         r = ctx.subrun(_run, dict(base, sc=sc, fault=fault))
-        fired = any(ctx.fired.get(k) for k in ('step-raise', 'source-raise', 'io-error', 'kv-error'))
+        fired = any(ctx.fired.get(k) for k in ('step-raise', 'source-raise', 'io-error', 'kv-error', 'poison'))
         if r['status'] == 'ok' and r['value'].get('construct_raised'):
             ctx.probe('fault-at-construction')
             ctx.sample = {'steps': sc['steps'], 'fault': fault, 'note': 'fault fired while step objects were constructed (outside process()): not judged'}
             return
         if not fired:
             ctx.probe('fault-not-reached')
-            if r['status'] != 'ok':
+            if r['status'] != 'ok' and fault['kind'] != 'poison':
                 ctx.violation('raised-without-fault', r['exc']['type'], 'run raised although the injected fault never fired: %s' % json.dumps(r['exc'])[:500])
             ctx.sample = {'steps': sc['steps'], 'fault': fault, 'fired': False}
             return
@@ -274,6 +280,10 @@ class C04(Prop):
             fail_pos = pos - 0.5
             {'package': 'fault-in-package-phase', 'end': 'fault-at-exhaustion', 'after-all': 'fault-after-all'}.get(fault['phase']) and ctx.probe(
                 {'package': 'fault-in-package-phase', 'end': 'fault-at-exhaustion', 'after-all': 'fault-after-all'}[fault['phase']])
+        elif fault['kind'] == 'poison':
+            ctx.probe('poison-fired')
+            # the step that touched the cell is at or after the planting position: artifacts strictly after the *end* cannot be attributed -> judged from the planting position
+            hit, fail_pos = 'poison', len(steps)
         elif fault['kind'] == 'source':
             hit, fail_pos = 'source', -1
             ctx.probe('source-raise-in-sample' if fault['after'] < 100 else 'source-raise-after-sample')
@@ -308,7 +318,7 @@ class C04(Prop):
         if exc['type'] != 'dataflows.base.exceptions.ProcessorError':
             ctx.violation('not-processor-error', exc['type'], 'raised %s instead of ProcessorError: %s (fault %s)' % (exc['type'], exc['str'][:200], json.dumps(fault)))
         markers = [c.get('marker') for c in exc['chain']] + [(exc.get('cause') or {}).get('marker')]
-        want = {'step': 'trip', 'source': 'source', 'kv': 'kv'}.get(fault['kind'])
+        want = {'step': 'trip', 'source': 'source', 'kv': 'kv', 'poison': 'poison'}.get(fault['kind'])
         if fault['kind'] == 'io':
             ok = any(m and str(m).startswith('io-error@') for m in markers)
         else:
